@@ -375,6 +375,11 @@ func c10ProbeCounts(c *Ctx, r *Report) {
 							return true
 						})
 					}
+					// a plain copy into a local container, immediately followed by the ok test whose failing
+					// side never looks at that container again (ret[i] = typed; if !ok { return nil, false })
+					if !good {
+						good = copyThenOkTest(info, fg, body, id, okObj)
+					}
 					if !good && bad == token.NoPos {
 						bad = id.Pos()
 					}
@@ -749,4 +754,77 @@ func c10TouchPropagates(c *Ctx, r *Report) {
 	}
 	r.Floor(rule, 3, "subContext, lazySubContext, keyBuilderContextWrapper")
 	_ = n
+}
+
+// copyThenOkTest: the use `id` is the whole right-hand side of `dst.. = id` with dst a local, the
+// next decision after that statement is on okObj, and on its failing side nothing mentions dst.
+func copyThenOkTest(info *types.Info, fg *FGraph, body *ast.BlockStmt, id *ast.Ident, okObj types.Object) bool {
+	var cp *ast.AssignStmt
+	var dst types.Object
+	ast.Inspect(body, func(n ast.Node) bool {
+		if a, ok := n.(*ast.AssignStmt); ok && len(a.Lhs) == 1 && len(a.Rhs) == 1 && ast.Unparen(a.Rhs[0]) == ast.Expr(id) {
+			if root := rootIdent(a.Lhs[0]); root != nil {
+				if v, isVar := info.Uses[root].(*types.Var); isVar && !v.IsField() && v.Pkg() != nil && v.Parent() != v.Pkg().Scope() {
+					cp, dst = a, v
+				}
+			}
+		}
+		return true
+	})
+	if cp == nil {
+		return false
+	}
+	cur := fg.NodeOf(cp.Pos())
+	if cur < 0 {
+		return false
+	}
+	for steps := 0; steps < 20; steps++ {
+		nd := fg.Nodes[cur]
+		if len(nd.Succ) == 1 && nd.Succ[0].Cond == nil {
+			cur = nd.Succ[0].To
+			// nothing but the test itself may sit in between
+			if x := fg.Nodes[cur].N; x != nil {
+				if _, isExpr := x.(ast.Expr); !isExpr {
+					return false
+				}
+			}
+			continue
+		}
+		if len(nd.Succ) != 2 {
+			return false
+		}
+		for _, e := range nd.Succ {
+			if e.Cond == nil || e.Tag != nil {
+				return false
+			}
+			okFalse := false
+			for _, at := range atomise(Fact{e.Cond, nil, e.Truth}) {
+				if identObj(info, at.Cond) == okObj && !at.Truth {
+					okFalse = true
+				}
+			}
+			if !okFalse {
+				continue
+			}
+			// the failing side: no mention of dst
+			mention := false
+			check := func(n *FNode) {
+				if n.N != nil {
+					ast.Inspect(n.N, func(y ast.Node) bool {
+						if i2, ok := y.(*ast.Ident); ok && info.Uses[i2] == dst {
+							mention = true
+						}
+						return true
+					})
+				}
+			}
+			check(fg.Nodes[e.To])
+			for rid := range fg.ReachSet(e.To, func(n *FNode) bool { return n.ID == nd.ID }, nil) {
+				check(fg.Nodes[rid])
+			}
+			return !mention
+		}
+		return false
+	}
+	return false
 }
